@@ -55,21 +55,24 @@ theorem has_empty (o : Outcome) : ({} : Compl).has o = false := by
   · cases l <;> rfl
   · cases l <;> rfl
 
-theorem has_evalCompl (ks : Kids) (o : Outcome) :
-    (evalCompl ks).has o = (match o with | .normal => true | .thr => ks.mayThrow | _ => false) := by
-  rcases o with _ | l | l | _ | _ <;> try rfl
-  · cases l <;> rfl
-  · cases l <;> rfl
+theorem has_exprOwn (e : EKind) (o : Outcome) :
+    (exprOwn e).has o = (match o with | .normal => true | .thr => (match e with | .other => true | _ => false) | _ => false) := by
+  cases e <;> (rcases o with _ | l | l | _ | _ <;> first | rfl | (cases l <;> rfl))
 
 theorem has_testCompl (tt : Bool) (ks : Kids) (o : Outcome) :
-    (testCompl tt ks).has o = (match o with | .normal => true | .thr => !tt && ks.mayThrow | _ => false) := by
-  unfold testCompl
+    (testCompl tt ks).has o = (if tt then (match o with | .normal => true | _ => false) else ks.compl.has o) := by
+  unfold testCompl testComplOf
   cases tt
-  · simp only [Bool.false_eq_true, if_false, has_evalCompl]; cases o <;> simp
+  · simp
   · simp only [if_true]
     rcases o with _ | l | l | _ | _ <;> try rfl
     · cases l <;> rfl
     · cases l <;> rfl
+
+/-- sequencing is associative (as far as membership of outcomes goes) -/
+theorem has_seq_assoc (x y z : Compl) (o : Outcome) : ((x.seq y).seq z).has o = (x.seq (y.seq z)).has o := by
+  simp only [has_seq, seq_n]
+  cases o.abrupt <;> cases x.has o <;> cases x.n <;> cases y.has o <;> cases y.n <;> simp
 
 theorem has_normal (o : Outcome) : Compl.normal.has o = (match o with | .normal => true | _ => false) := by
   rcases o with _ | l | l | _ | _ <;> try rfl
@@ -178,6 +181,28 @@ theorem goesRound_iff (ls : List Id) (b : Compl) :
         exact Or.inr ⟨l, by simpa [Compl.has, List.contains_iff_mem] using h1, h2⟩
     · simp [Outcome.continuesLoop] at h2
     · simp [Outcome.continuesLoop] at h2
+
+theorem goesRoundAny_iff (b : Compl) : goesRoundAny b = true ↔ ∃ o, b.has o = true ∧ o.goesRoundAny = true := by
+  unfold goesRoundAny
+  constructor
+  · intro h
+    simp only [Bool.or_eq_true, Bool.not_eq_true', List.isEmpty_eq_false_iff] at h
+    rcases h with (h | h) | h
+    · exact ⟨.normal, h, rfl⟩
+    · exact ⟨.cont none, h, rfl⟩
+    · obtain ⟨l, r, hl⟩ := List.exists_cons_of_ne_nil h
+      exact ⟨.cont (some l), by simp [Compl.has, hl], rfl⟩
+  · rintro ⟨o, h1, h2⟩
+    rcases o with _ | l | l | _ | _
+    · simp [show b.n = true from h1]
+    · simp [Outcome.goesRoundAny] at h2
+    · cases l with
+      | none => simp [show b.c = true from h1]
+      | some l =>
+        have : b.cl ≠ [] := by intro e; simp [Compl.has, e] at h1
+        simp [this]
+    · simp [Outcome.goesRoundAny] at h2
+    · simp [Outcome.goesRoundAny] at h2
 
 /-- an outcome of a loop body either leaves the loop or goes round -/
 theorem exits_or_continues (ls : List Id) (o : Outcome) : (∃ o', o.exitsLoop ls = some o') ∨ o.continuesLoop ls = true := by
